@@ -400,7 +400,7 @@ func (w *worldA) checkTicks() {
 				if d.at.Before(d.deadline) {
 					out.Violate("C03", "decided_before_deadline", siteCollect, "trace#%d decided at t=%v (%s) but its deadline is t=%v (first span t=%v)", tm.idx, d.at.Sub(w.start), d.sendReason, d.deadline.Sub(w.start), d.first.Sub(w.start))
 				}
-				if d.stepK != "tick" && !handledAt[[2]int{d.step, d.worker}] {
+				if d.stepK != "tick" && !handledAt[[2]int{d.step, d.worker}] && !w.p.On("out_queue_cap") {
 					out.Violate("C03", "decided_outside_send_tick", siteCollect, "trace#%d decided (%s) during a %q step, not a send tick", tm.idx, d.sendReason, d.stepK)
 				}
 				// (3) reported reason precedence
@@ -427,6 +427,12 @@ func (w *worldA) checkTicks() {
 	for _, tr := range w.tickLog {
 		if tr.deferred {
 			continue // judged when handled
+		}
+		if w.p.On("out_queue_cap") {
+			// with a shrunk outgoing queue a worker can get stuck in the middle of a
+			// tick and finish it steps later: the per-step account does not apply
+			out.Probe("tick_account_skipped_small_outgoing_queue")
+			continue
 		}
 		var decided []*decisionRec
 		for _, d := range byStep[tr.step] {
